@@ -681,6 +681,9 @@ package spec
 //@ define availAt(dom smt:(Array String Bool), k string) bool = dom[k] || docOK(k)
 // the sub-document a reference designates inside document d
 //@ define designated(ref *Ref, d interface{}) interface{} = refString(ref) == "" ? d : ptrEval(refFragment(ref), d)
+//@ define refFragmentV(ref Ref) string = ref.referenceURL == nil ? "" : ref.referenceURL.Fragment
+//@ define designatedV(ref Ref, d interface{}) interface{} = refStringV(ref) == "" ? d : ptrEval(refFragmentV(ref), d)
+//@ define designatesV(ref Ref, d interface{}) bool = refStringV(ref) == "" || ptrDefined(refFragmentV(ref), d)
 //@ define designates(ref *Ref, d interface{}) bool = refString(ref) == "" || ptrDefined(refFragment(ref), d)
 
 //@ func (*schemaLoader).resolveRef
@@ -1085,3 +1088,66 @@ package spec
 //@   ensures  [C08] no-spurious-error @@ result != nil ==> failures > old(failures)
 //@   ensures  [C08] continue-silent @@ options != nil && old(options.ContinueOnError) ==> result == nil
 //@   ensures  [C08] failures-monotone @@ failures >= old(failures)
+
+// reflect: an interface holding a pointer has kind Ptr (22)
+//@ axiom forall x interface{} :: holds(x, "*Schema") || holds(x, "**Schema") || holds(x, "*Parameter") || holds(x, "*Response") || holds(x, "*PathItem") || holds(x, "*Items") ==> reflect_kind_of(x) == 22
+
+//@ func resolveAnyWithBase
+//@   property C05, C08
+//@   requires ref != nil
+//@   uses     normalizeBase.non-empty(options.RelativeBase)
+//@   uses     normalizeBase.non-empty(".root")
+//@   requires holds(result, "*Schema") || holds(result, "*Parameter") || holds(result, "*Response") || holds(result, "*PathItem") || holds(result, "*Items")
+//@   requires obase(payload(result)) != obase(ref) && obase(payload(result)) != obase(ref.referenceURL)
+//@   assumes  [C05] root-location-wellformed @@ options != nil && options.RelativeBase != "" ==> urlOK(normBase(options.RelativeBase))
+//@   ensures  [C08] error-iff-failure @@ (result0 != nil) == (failures > old(failures))
+//@   ensures  [C05] in-typed-or-generic-root @@ root != nil && old(ref.referenceURL != nil && refLocal(ref)) ==>
+//@               (result0 == nil) == old(designates(ref, root) && decodeOK(designated(ref, root), dynType(result)))
+//@   ensures  [C05] in-root-value @@ root != nil && old(ref.referenceURL != nil && refLocal(ref)) && result0 == nil ==> decodedFrom[payload(result)] == old(designated(ref, root))
+//@   ensures  [C05] zero-ref-untouched @@ old(ref.referenceURL == nil) ==> result0 == nil && decodedFrom == old(decodedFrom)
+
+//@ func ResolveRefWithBase
+//@   property C05, C08
+//@   requires ref != nil
+//@   assumes  [C05] root-location-wellformed @@ options != nil && options.RelativeBase != "" ==> urlOK(normBase(options.RelativeBase))
+//@   ensures  [C05] never-zero-value-with-nil-error @@ result1 != nil ==> result0 == nil
+//@   ensures  [C05] value-on-success @@ result1 == nil ==> result0 != nil
+//@   ensures  [C08] error-iff-failure @@ (result1 != nil) == (failures > old(failures))
+//@   ensures  [C05] in-root-error-iff-undefined @@ root != nil && old(ref.referenceURL != nil && refLocal(ref)) ==> (result1 == nil) == old(designates(ref, root) && decodeOK(designated(ref, root), typeID("*Schema")))
+//@   ensures  [C05] in-root-value @@ root != nil && old(ref.referenceURL != nil && refLocal(ref)) && result1 == nil ==> decodedFrom[result0] == old(designated(ref, root))
+
+//@ func ResolveParameterWithBase
+//@   property C05, C08
+//@   assumes  [C05] root-location-wellformed @@ options != nil && options.RelativeBase != "" ==> urlOK(normBase(options.RelativeBase))
+//@   ensures  [C05] never-zero-value-with-nil-error @@ result1 != nil ==> result0 == nil
+//@   ensures  [C05] value-on-success @@ result1 == nil ==> result0 != nil
+//@   ensures  [C08] error-iff-failure @@ (result1 != nil) == (failures > old(failures))
+//@   ensures  [C05] in-root-error-iff-undefined @@ root != nil && old(ref.referenceURL != nil && refLocalV(ref)) ==> (result1 == nil) == old(designatesV(ref, root) && decodeOK(designatedV(ref, root), typeID("*Parameter")))
+//@   ensures  [C05] in-root-value @@ root != nil && old(ref.referenceURL != nil && refLocalV(ref)) && result1 == nil ==> decodedFrom[result0] == old(designatedV(ref, root))
+
+//@ func ResolveResponseWithBase
+//@   property C05, C08
+//@   assumes  [C05] root-location-wellformed @@ options != nil && options.RelativeBase != "" ==> urlOK(normBase(options.RelativeBase))
+//@   ensures  [C05] never-zero-value-with-nil-error @@ result1 != nil ==> result0 == nil
+//@   ensures  [C05] value-on-success @@ result1 == nil ==> result0 != nil
+//@   ensures  [C08] error-iff-failure @@ (result1 != nil) == (failures > old(failures))
+//@   ensures  [C05] in-root-error-iff-undefined @@ root != nil && old(ref.referenceURL != nil && refLocalV(ref)) ==> (result1 == nil) == old(designatesV(ref, root) && decodeOK(designatedV(ref, root), typeID("*Response")))
+//@   ensures  [C05] in-root-value @@ root != nil && old(ref.referenceURL != nil && refLocalV(ref)) && result1 == nil ==> decodedFrom[result0] == old(designatedV(ref, root))
+
+//@ func ResolvePathItemWithBase
+//@   property C05, C08
+//@   assumes  [C05] root-location-wellformed @@ options != nil && options.RelativeBase != "" ==> urlOK(normBase(options.RelativeBase))
+//@   ensures  [C05] never-zero-value-with-nil-error @@ result1 != nil ==> result0 == nil
+//@   ensures  [C05] value-on-success @@ result1 == nil ==> result0 != nil
+//@   ensures  [C08] error-iff-failure @@ (result1 != nil) == (failures > old(failures))
+//@   ensures  [C05] in-root-error-iff-undefined @@ root != nil && old(ref.referenceURL != nil && refLocalV(ref)) ==> (result1 == nil) == old(designatesV(ref, root) && decodeOK(designatedV(ref, root), typeID("*PathItem")))
+//@   ensures  [C05] in-root-value @@ root != nil && old(ref.referenceURL != nil && refLocalV(ref)) && result1 == nil ==> decodedFrom[result0] == old(designatedV(ref, root))
+
+//@ func ResolveItemsWithBase
+//@   property C05, C08
+//@   assumes  [C05] root-location-wellformed @@ options != nil && options.RelativeBase != "" ==> urlOK(normBase(options.RelativeBase))
+//@   ensures  [C05] never-zero-value-with-nil-error @@ result1 != nil ==> result0 == nil
+//@   ensures  [C05] value-on-success @@ result1 == nil ==> result0 != nil
+//@   ensures  [C08] error-iff-failure @@ (result1 != nil) == (failures > old(failures))
+//@   ensures  [C05] in-root-error-iff-undefined @@ root != nil && old(ref.referenceURL != nil && refLocalV(ref)) ==> (result1 == nil) == old(designatesV(ref, root) && decodeOK(designatedV(ref, root), typeID("*Items")))
+//@   ensures  [C05] in-root-value @@ root != nil && old(ref.referenceURL != nil && refLocalV(ref)) && result1 == nil ==> decodedFrom[result0] == old(designatedV(ref, root))
